@@ -81,8 +81,14 @@ pub enum EvalErr {
     SoftforkStackDepthExceeded,
 }
 impl From<std::io::Error> for EvalErr {
-    fn from(_: std::io::Error) -> Self {
-        EvalErr::SerializationError
+    fn from(e: std::io::Error) -> Self {
+        // a size-limited writer (LimitedWriter) reports a crossed limit as
+        // ErrorKind::OutOfMemory, wherever in the output it is crossed
+        if e.kind() == std::io::ErrorKind::OutOfMemory {
+            EvalErr::OutOfMemory
+        } else {
+            EvalErr::SerializationError
+        }
     }
 }
 
